@@ -165,6 +165,7 @@ def run_real(funcname, ns_extra, args, kwargs):
     code = compile(mod, src.path, 'exec')
     ns = dict(ns_extra)
     exec(code, ns)
+    fn.compiled = ns[funcname]        # (kept for obligations that call the same function object again)
     return ns[funcname](*args, **kwargs), src, fn
 
 
@@ -251,7 +252,8 @@ def check_dirk(inst):
             return LinOp.sym('1') * (1 / C.t[op])
         return LinOp.sym('inv[%s]' % op) * (1 / C.t[op])
 
-    ns = {'np': _NPshim, 'scipy': _Scipy, 'newton': newton, 'make_solver': make_solver}
+    # (min/max of the symbolic step size only occur in the tolerance handed to newton, which the newton contract does not read)
+    ns = {'np': _NPshim, 'scipy': _Scipy, 'newton': newton, 'make_solver': make_solver, 'min': lambda *a: sp.Min(*a), 'max': lambda *a: sp.Max(*a)}
     kwargs = {}
     if inst['fx']:
         kwargs['Fx'] = Vec.atom('F(x)')
@@ -311,6 +313,20 @@ def check_dirk(inst):
         obs.append(_ob(pre + 'x_est', ok, 'M x_est = M x + tau sum bhat_i F(y_i)', ''))
     else:
         obs.append(_ob(pre + 'arity', len(out) == 2, 'non-embedded tableau returns (x_new, F_x_new)', ''))
+    # history independence: a SECOND call of the same function object with another mass matrix and no `data` argument must use that
+    # matrix everywhere (nothing may be remembered from the first call, e.g. a cached solver for the first mass matrix)
+    if not inst['mnone'] and not inst['fx']:
+        M2 = LinOp.sym('M2')
+        rec.newton_calls.clear()
+        try:
+            out2 = fn.compiled(A, M2, Fsh, Jsh, x, tau)
+            keys = ' '.join([o.key() for o in out2 if isinstance(o, Vec)] + [r_.key() for (_, r_, _, _, _) in rec.newton_calls])
+            import re as _re
+            stale = bool(_re.search(r'(?<![\w\[])M\(|inv\[M\]', keys))
+            obs.append(_ob(pre + 'second-call-uses-its-own-mass-matrix', not stale,
+                           'a second call without `data` and with another mass matrix refers to that matrix only', keys[:300]))
+        except Exception as e:
+            obs.append(_ob(pre + 'second-call-uses-its-own-mass-matrix', False, 'a second call without `data` runs', '%s: %s' % (type(e).__name__, e)))
     if expl:
         obs.append(_ob(pre + 'explicit-first-stage', (not inst['fx']) == ('x' in rec.F_calls[:1]) or inst['fx'],
                        'first stage is explicit iff a_00 = 0; F(x) reused when supplied', ''))
